@@ -15,6 +15,7 @@ package main
 
 import (
 	"bytes"
+	"context"
 	"errors"
 	"fmt"
 	"math/rand"
@@ -27,6 +28,7 @@ import (
 	"strconv"
 	"strings"
 	"sync"
+	"time"
 
 	"github.com/rogpeppe/go-internal/testscript"
 
@@ -174,6 +176,7 @@ var failLineRE = regexp.MustCompile(`(?m)^FAIL: (.*?):(\d+): `)
 type runner struct {
 	root   string // temp root, created and removed by runTsRun
 	cliBin string
+	hdir   string // directory holding the helper program `vh` (helper.go); first on the scripts' PATH
 	n      int
 	mu     sync.Mutex
 }
@@ -298,6 +301,13 @@ func (r *runner) runRealOnce(fl flags, file []byte) obs {
 		RequireExplicitExec: fl.explicitExec,
 		RequireUniqueNames:  fl.unique,
 		UpdateScripts:       fl.update,
+		// safety net only: a script that waits for a helper nobody ever signals (never generated on the
+		// unchanged tree) is cut off instead of hanging the run
+		Deadline: time.Now().Add(4 * time.Minute),
+		Setup: func(env *testscript.Env) error {
+			env.Setenv("PATH", r.hdir+string(filepath.ListSeparator)+env.Getenv("PATH"))
+			return nil
+		},
 	}
 	if fl.customCmds {
 		p.Cmds = customCmds(&probes)
@@ -356,10 +366,12 @@ func (r *runner) runCLI(fl flags, files [][]byte) (int, [][]byte, string) {
 		names = append(names, n)
 		args = append(args, n)
 	}
-	cmd := exec.Command(r.cliBin, args...)
+	ctx, cancel := context.WithTimeout(context.Background(), 5*time.Minute) // safety net, as in runRealOnce
+	defer cancel()
+	cmd := exec.CommandContext(ctx, r.cliBin, args...)
 	cmd.Dir = dir
-	// no `go` on PATH: cmd/testscript then skips gotooltest.Setup
-	cmd.Env = []string{"PATH=/nonexistent-dir", "TMPDIR=" + tmp, "HOME=" + dir}
+	// no `go` on PATH (cmd/testscript then skips gotooltest.Setup): only the helper program `vh`
+	cmd.Env = []string{"PATH=" + r.hdir, "TMPDIR=" + tmp, "HOME=" + dir}
 	out, err := cmd.CombinedOutput()
 	code := 0
 	if err != nil {
@@ -499,6 +511,11 @@ func runTsRun(tier string, seed int64, model string, replay string) *corr.Result
 		root = real
 	}
 	r := &runner{root: root}
+	if r.hdir, err = helperDir(root); err != nil {
+		res.Observations = append(res.Observations, "cannot set up the helper program: "+err.Error())
+		res.Disagree("<helper>", "", err.Error())
+		return res
+	}
 	if r.cliBin, err = buildCLI(root); err != nil {
 		res.Observations = append(res.Observations, err.Error())
 		res.Disagree("<build cmd/testscript>", err.Error(), "")
